@@ -23,9 +23,10 @@ BZero == <<>>
 RECURSIVE FromNat(_)
 FromNat(n) == IF n = 0 THEN <<>> ELSE <<n % B>> \o FromNat(n \div B)
 
-\* value of a (small) big number as an integer; only for numbers < 2^31
-RECURSIVE ToNat(_)
-ToNat(s) == IF s = <<>> THEN 0 ELSE s[1] + B * ToNat(Tail(s))
+\* value of a big number as an integer, saturating at 2*10^9 (TLC integers are 32-bit)
+RECURSIVE ToNatRaw(_)
+ToNatRaw(s) == IF s = <<>> THEN 0 ELSE s[1] + B * ToNatRaw(Tail(s))
+ToNat(s) == IF Len(s) > 4 \/ (Len(s) = 4 /\ s[4] >= 2) THEN 2000000000 ELSE ToNatRaw(s)
 
 Limb(s, i) == IF i <= Len(s) THEN s[i] ELSE 0
 Max(a, b) == IF a >= b THEN a ELSE b
